@@ -5,6 +5,7 @@ patch, the patched tree compiles and the existing suite still passes. Writes /ve
 import json, os, re, shutil, subprocess, sys
 
 src, sid = sys.argv[1].rstrip("/"), sys.argv[2]
+BASE = sys.argv[3] if len(sys.argv) > 3 else "HEAD"   # revision the change was written against (when main has moved on)
 meta = json.load(open(os.path.join(src, "meta.json")))
 how = meta.get("demo_how_to_run", "")
 WT = "/tmp/seedverify/%s/repo" % sid
@@ -12,7 +13,7 @@ TGT = "/tmp/seedverify/target"   # shared build cache across seeds
 shutil.rmtree(os.path.dirname(WT), ignore_errors=True)
 os.makedirs(os.path.dirname(WT), exist_ok=True)
 subprocess.run(["git", "-C", "/repo", "worktree", "prune"], check=False)
-subprocess.run(["git", "-C", "/repo", "worktree", "add", "-q", "--detach", WT, "HEAD"], check=True)
+subprocess.run(["git", "-C", "/repo", "worktree", "add", "-q", "--detach", WT, BASE], check=True)
 env = dict(os.environ, CARGO_TARGET_DIR=TGT, RUST_BACKTRACE="0", CARGO_NET_OFFLINE="true")
 needs_cfg = "surrealkv_verif" in how
 if needs_cfg:
@@ -77,7 +78,7 @@ shutil.copy(os.path.join(src, "patch.diff"), dst)
 shutil.copy(demo, dst)
 meta_out = {"property": meta.get("property"), "summary": meta.get("summary"), "needs": meta.get("needs"),
             "demo_how_to_run": how, "author_ran": meta.get("ran"), "confirmation": res, "repo_head": subprocess.run(
-                ["git", "-C", "/repo", "rev-parse", "--short", "HEAD"], capture_output=True, text=True).stdout.strip()}
+                ["git", "-C", "/repo", "rev-parse", "--short", BASE], capture_output=True, text=True).stdout.strip()}
 if os.path.exists(os.path.join(dst, "meta.json")):
     old = json.load(open(os.path.join(dst, "meta.json")))
     for k in ("detection",):
